@@ -474,7 +474,7 @@ example :
 def obsOf (keys : List Bytes) (r : State × Stage) : LoadObs :=
   { failed := r.2 != .ok, values := r.1.values, bound := r.1.bound,
     gets := keys.map fun k => (k, classify (Config.get r.1.values k)),
-    typed := true }
+    typed := true, panicked := false }
 
 theorem lemma_truthy (v : Option CVal) : truthy v = (classify v == .leaf "b:true".toList) := by
   cases v with
